@@ -5,7 +5,7 @@
 //!  (2) the Lean model of the redeemer loop (`driver budget loop …`),
 //!  (3) itself under permutation of resolved inputs / witness scripts / datums,
 //!  (4) budgets around the exact total.
-use crate::{driver, prng::Prng, report, report::Report, wire::hex as tohex, Ctx};
+use crate::{driver, prng::Prng, report, report::Report, Ctx};
 use num_bigint::BigInt;
 use pallas_codec::utils::{
     Bytes, CborWrap, KeyValuePairs, NonEmptyKeyValuePairs, NonEmptySet, NonZeroInt, Nullable, Set,
@@ -38,6 +38,10 @@ use uplc::{
 };
 
 // ---------------------------------------------------------------- a case = one call of eval_phase_two
+
+fn tohex(b: &[u8]) -> String {
+    hex::encode(b)
+}
 
 #[derive(Clone)]
 struct Case {
@@ -441,7 +445,13 @@ fn check_case(case: &Case, args: &HashMap<(u8, bool), Vec<String>>, rep: &mut Re
         .collect();
     let mut fields: Vec<String> = outcomes
         .iter()
-        .map(|o| match o {
+        .enumerate()
+        .map(|(i, o)| match o {
+            Direct::Stage(c) if c == "cost-model-not-found" || c == "txinfo" || c == "decode" => match &expect[i] {
+                Expect::Known { lang, .. } if c == "cost-model-not-found" => format!("found:v{lang}"),
+                Expect::Known { lang, .. } => format!("found:v{lang}:{c}"),
+                _ => format!("stage:{c}"),
+            },
             Direct::Stage(c) => format!("stage:{c}"),
             Direct::Run { lang, cost, kind } => format!("run:v{}:{}:{}:{}", lang, cost.0, cost.1, if *kind == "oob" { "fail" } else { kind }),
         })
@@ -891,7 +901,10 @@ fn build(rng: &mut Prng, items: &[Item], defect: Defect, redeemers_as_map: bool,
             Expect::Missing("input-not-found".into())
         } else if defect == Defect::MissingScript && k == victim {
             Expect::Missing("missing-script".into())
-        } else if defect == Defect::MissingDatum && k == victim && it.purpose == Purpose::Spend && it.datum == DatumMode::Hashed {
+        } else if defect == Defect::MissingDatum && k == victim && it.purpose == Purpose::Spend && it.datum == DatumMode::Hashed
+            // (another input may carry the very same datum, which then IS in the witness set)
+            && !wit_data.contains(datums[k].as_ref().unwrap())
+        {
             Expect::Missing("missing-datum".into())
         } else if it.purpose == Purpose::Spend && it.datum == DatumMode::Absent && lang != 3 {
             Expect::Missing("missing-inline-datum-or-hash".into())
@@ -1001,7 +1014,7 @@ pub fn run(ctx: &Ctx) -> Report {
          protocol versions, script overrides. Non-trivial = distinct (transaction shape, answer)",
     );
     let root = std::env::var("VERIF_ROOT").unwrap_or_else(|_| "/verif".into());
-    let mut n: usize = if ctx.thorough { 1500 } else { 150 };
+    let mut n: usize = if ctx.thorough { 150_000 } else { 3_000 };
     let argv: Vec<String> = std::env::args().collect();
     for i in 0..argv.len() {
         if argv[i] == "--n" {
@@ -1230,6 +1243,9 @@ pub fn run(ctx: &Ctx) -> Report {
             rep.sample(json!({"case": case.name, "real": base.real}));
         }
         variations(&case, &base, Some(&b.tx), &mut rng, &args, &mut rep, &mut pending, 2);
+        if pending.len() >= 4000 {
+            settle(std::mem::take(&mut pending), &mut rep);
+        }
     }
 
     settle(pending, &mut rep);
